@@ -123,9 +123,17 @@ def eval_expr(expr: ast.AST, env: Dict[str, object]):
 _NOVALUE = object()  # returned by an env["__resolve__"] hook that does not know the expression
 
 
+class _Lazy:
+    """a local whose defining expression could not be evaluated on the sample point; only an actual use makes the evaluation undecided"""
+    def __init__(self, why):
+        self.why = why
+
+
 def _eval_expr(expr: ast.AST, env: Dict[str, object]):
     key = norm(expr)
     if key in env:
+        if isinstance(env[key], _Lazy):
+            raise Undecided(env[key].why)
         return env[key]
     hook = env.get("__resolve__")
     if hook is not None:
@@ -332,7 +340,13 @@ def eval_function(fn: ast.AST, env: Dict[str, object]):
                 block(st.body if eval_expr(st.test, env) else st.orelse)
                 continue
             if isinstance(st, ast.Assign) and len(st.targets) == 1 and isinstance(st.targets[0], (ast.Name, ast.Tuple)):
-                v = eval_expr(st.value, env)
+                try:
+                    v = eval_expr(st.value, env)
+                except Undecided as exc:
+                    if isinstance(st.targets[0], ast.Name) and not env.get("__raw__"):
+                        env[st.targets[0].id] = _Lazy(str(exc))   # decided only if the local is really needed
+                        continue
+                    raise
                 bind(st.targets[0], list(v) if isinstance(st.value, (ast.List, ast.ListComp)) else v)  # a list the function may append to
                 continue
             if isinstance(st, ast.AnnAssign) and isinstance(st.target, ast.Name) and st.value is not None:
@@ -416,6 +430,22 @@ def eval_resolved(expr: ast.AST, env: Dict[str, object], defs, depth: int = 4):
                     except Undecided:
                         pass
     return eval_expr(expr, env)
+
+
+def module_resolver(tree: ast.Module):
+    """resolver hook: a Name that is not bound in the environment but is assigned exactly once at module level to a whitelisted expression
+    (a table of constants, possibly naming attributes the environment binds) evaluates to that expression's value"""
+    assigns: Dict[str, list] = {}
+    for st in tree.body:
+        tg = st.targets[0] if isinstance(st, ast.Assign) and len(st.targets) == 1 else (st.target if isinstance(st, ast.AnnAssign) and st.value is not None else None)
+        if isinstance(tg, ast.Name):
+            assigns.setdefault(tg.id, []).append(st.value)
+
+    def hook(expr, env):
+        if isinstance(expr, ast.Name) and expr.id not in env and len(assigns.get(expr.id, [])) == 1:
+            return eval_expr(assigns[expr.id][0], env)
+        return _NOVALUE
+    return hook
 
 
 def module_constants(tree: ast.Module) -> Dict[str, object]:
